@@ -29,6 +29,10 @@ CLAIMED = {
  'C14': dict(tech="TLC: hash object with symbolic injective compression (all cut sets up to 3.5 blocks: idle state = fold of fed blocks, piecewise = one-shot) + every TLC-generated call history replayed on real MD4/MD5/SHA-1/SHA-2/BLAKE objects and trace-validated step by step",
              text="All call histories of depth 3 (quick) / 4 (thorough) over the alphabet continue(0..2 blocks)/bad continuation/final(0..1 blocks x 5 residue classes)/over-long/re-init, on 14 hash objects round-robin, seeded data; TLC recomputes the chaining value, the bit counter after each piece and the final digest with the real compression functions, so the digest is compared with the standard's digest of the whole message.",
              ref="DESIGN.md section 7 C14"),
+
+ 'C13': dict(tech="TLC: key-register design over a symbolic hash (all key lengths 0..3B: one block, three branches, no trace of the old key) + TLC trace validation of HMAC objects over all 14 block hashes, evaluating RFC 2104 over the TLA+ hash specifications",
+             text="Key-length classes {0,1,dg-1,dg,dg+1,B-1,B,B+1,2B,3B} (+ random in thorough) x 14 hashes x message lengths, and key replacement sequences K1,K2,K1 on one object; each MAC recomputed by TLC (sys/Hmac over HashObj).  Keys and messages are seeded.",
+             ref="DESIGN.md section 7 C13"),
 }
 PENDING = "check not built yet in this tree (specification modules are being written; see DESIGN.md section 12 build order) - not claimed until its quick command runs clean"
 def main():
